@@ -66,7 +66,7 @@ func (f *Oneminus) Call(s *slip.Scope, args slip.List, depth int) (result slip.O
 		var z big.Int
 		den := (*big.Rat)(ta).Denom()
 		num := z.Sub((*big.Rat)(ta).Num(), den)
-		return (*slip.Ratio)(new(big.Rat).SetFrac(num, den))
+		return ratReduce(new(big.Rat).SetFrac(num, den))
 	case slip.Complex:
 		result = slip.Complex(complex(real(ta)-1.0, imag(ta)))
 	default:
